@@ -263,7 +263,7 @@ func init() {
 // in the middle) and compared with its reversal.
 func c17PairCases(c *mon.Ctx) int {
 	n := len(gen.GNPool)
-	return n * (n - 1) / 2 * c.Pick(1, 4)
+	return n * (n - 1) / 2 * c.Pick(2, 4)
 }
 
 func c17Pair(c *mon.Ctx, i int, rng *rand.Rand) {
@@ -282,7 +282,10 @@ func c17Pair(c *mon.Ctx, i int, rng *rand.Rand) {
 	var spec *gen.Spec
 	switch variant {
 	case 1:
+		// S/MIME: the subject's own mailbox address stays in the SAN, so that what the pair adds decides
 		spec = gen.SMIMELeaf(gen.D(2024, 3, 1), "alice@example.com")
+		gns = []*der.Node{ea.Node(), gen.GNEmail("alice@example.com"), eb.Node()}
+		labels = []string{ea.Label, "email-good", eb.Label}
 	case 2:
 		spec = gen.TLSLeaf(gen.D(2017, 3, 1), "www.example.com")
 		spec.ReplaceExt(gen.ExtPolicies(gen.OIDPolEV))
